@@ -24,7 +24,7 @@ MANIFEST = {
             "dominated by the equality test, and every wrapper passes through finalize. Decides 'frame = plain || LE checksum of "
             "exactly those bytes' and 'success => consumed bytes are followed by their checksum' for all inputs and widths.",
     "note": "Trusted: the crc crate (Digest::update/finalize), std byte-order functions. Which corruptions a polynomial detects is CRC theory, not decided.",
-    "technique": "static analysis: canonical per-path summaries of every macro instance (feature use-crc) + sibling agreement across widths",
+    "technique": "static analysis: semantic MIR summaries of every macro instance (feature use-crc, five widths) vs specifications + per-width digest / byte-order rules + sibling agreement",
 }
 
 WIDTHS = {"u8": 1, "u16": 2, "u32": 4, "u64": 8, "u128": 16}
